@@ -18,7 +18,7 @@ let rec nat_of_int n = if n <= 0 then O else S (nat_of_int (n - 1))
 let rec int_of_nat = function O -> 0 | S n -> 1 + int_of_nat n
 
 let big_fuel = nat_of_int 200000
-let a_ops = voxOps
+let a_ops = sVoxOps          (* voxels lifted with Status codes, first error wins *)
 let fdiv a b = if a >= 0 then a / b else - ((- a + b - 1) / b)   (* floor division, b > 0 *)
 let cdiv a b = - (fdiv (- a) b)
 
@@ -28,22 +28,26 @@ let cell_range a b = (fdiv (a - 32) 64 + 1, cdiv (b - 32) 64 - 1 + 1)
 let rec rep n x = if n <= 0 then [] else x :: rep (n - 1) x
 let md4 r = ((r mod 4) + 4) mod 4
 
-type oracle_set = { uq : nat -> nat -> bool; ov : (vox list * gen list) -> (vox list * gen list) -> bool;
-                    sz : (vox list * gen list) -> z; km : nat }
+type sleaf = z st * gen list
+type oracle_set = { uq : heap -> nat -> bool; ov : sleaf -> sleaf -> bool; sz : sleaf -> z; km : nat }
 
-let sz_count (l : vox list * gen list) = z_of_int (List.length (fst l))
+let vox_of (x : z st) : vox list = match x with Ok v -> (Obj.magic v : vox list) | Err _ -> []
+let sz_count (l : sleaf) = z_of_int (List.length (vox_of (fst l)))
 let km1000 = nat_of_int (try int_of_string Sys.argv.(1) with _ -> 1000)
 
 let run_hop (o : oracle_set) (stack : bool) (s : state) (h : hop) : state option =
   do_hop a_ops o.uq (Obj.magic o.ov) (Obj.magic o.sz) o.km big_fuel stack s h
 
-(* voxel set of handle a, if it is a leaf *)
-let leaf_vox (s : state) (a : int) : vox list option =
+(* Status code and voxel set of handle a, if it is a leaf *)
+let leaf_vox (s : state) (a : int) : (int * vox list) option =
   match handle a_ops s (nat_of_int a) with
   | None -> None
   | Some id ->
     (match get_node a_ops s.st_heap id with
-     | Some (NLeaf l) -> Some (Obj.magic (lden a_ops l) : vox list)
+     | Some (NLeaf l) ->
+       (match (Obj.magic (lden a_ops l) : z st) with
+        | Ok v -> Some (0, (Obj.magic v : vox list))
+        | Err e -> Some (int_of_z e, []))
      | _ -> None)
 
 let canon (l : vox list) = List.sort_uniq compare (List.map (fun ((x, y), z) -> (int_of_z x, int_of_z y, int_of_z z)) l)
@@ -94,18 +98,9 @@ let dump (s : state) (reg : int array) (nreg : int) : string =
   let nodes = Array.of_list h.nodes in
   let cells = Array.of_list (List.map (fun c -> List.map int_of_nat c) h.cells) in
   let nn = Array.length nodes in
+  (* dead = not reachable from a live handle: the extracted [alive] that uniq_rc uses *)
   let alive = Array.make nn false in
-  let rec mark id =
-    if id >= 0 && id < nn && not alive.(id) then begin
-      alive.(id) <- true;
-      match nodes.(id) with
-      | NLeaf _ -> ()
-      | NOp (_, _, c, ca) ->
-        let c = int_of_nat c in
-        if c < Array.length cells then List.iter mark cells.(c);
-        (match ca with Some cid -> mark (int_of_nat cid) | None -> ())
-    end in
-  List.iter (function Some id -> mark (int_of_nat id) | None -> ()) s.st_handles;
+  List.iter (fun id -> let i = int_of_nat id in if i < nn then alive.(i) <- true) (C03_model.alive a_ops h s.st_handles);
   let regk = Hashtbl.create 64 in
   for k = 0 to nreg - 1 do if alive.(reg.(k)) then Hashtbl.replace regk reg.(k) k done;
   let ref_of id =
@@ -181,7 +176,7 @@ let process line =
        let st = ref (init_state a_ops) in
        let nhandles = ref 0 in
        let ok = ref true in
-       let base_or = { uq = (fun _ _ -> false); ov = vovl; sz = sz_count; km = km1000 } in
+       let base_or = { uq = (fun _ _ -> false); ov = svovl; sz = sz_count; km = km1000 } in
        List.iteri (fun j op ->
            if !ok then begin
              let i = int_of_string in
@@ -191,7 +186,8 @@ let process line =
                | ["L"; ax; ay; az; bx; by; bz] ->
                  let (x0, x1) = cell_range (i ax) (i bx) and (y0, y1) = cell_range (i ay) (i by)
                  and (z0, z1) = cell_range (i az) (i bz) in
-                 (true, HLeaf (Obj.magic (vbox (z_of_int x0) (z_of_int x1) (z_of_int y0) (z_of_int y1) (z_of_int z0) (z_of_int z1))), None)
+                 (true, HLeaf (Obj.magic (Ok (Obj.magic (vbox (z_of_int x0) (z_of_int x1) (z_of_int y0) (z_of_int y1) (z_of_int z0) (z_of_int z1))) : z st)), None)
+               | ["E"; _; code] -> (true, HLeaf (Obj.magic (Err (z_of_int (i code)) : z st)), None)
                | "O" :: o :: n :: hs -> (i n <> 1, HOp (op_of_int (i o), List.map (fun h -> nat_of_int (i h)) hs), None)
                | ["B"; o; a; b] -> (true, HBool (op_of_int (i o), nat_of_int (i a), nat_of_int (i b)), None)
                | ["TT"; a; dx; dy; dz] ->
@@ -219,12 +215,11 @@ let process line =
              (* use_count oracle inferred from what the implementation did: a node that is alive afterwards was
                 "unique" (collapsed) iff its cache_ is still empty; a node that died during the force was evaluated
                 (not unique) iff it left its result in a children vector shared with a surviving, uncached node *)
-             let uq_impl _ idn =
+             let uq_inferred idn =
                let nid = int_of_nat idn in
                match Hashtbl.find_opt regtab nid with
                | None -> false
                | Some k ->
-                 let u =
                    match List.assoc_opt k post with
                    | Some (cached, _) -> not cached
                    | None ->
@@ -235,9 +230,23 @@ let process line =
                         let sharers = List.filter (fun (k2, _) -> k2 <> k && cell_of reg.(k2) = Some c) post in
                         not (raw_pre && List.exists (fun (_, (_, e)) -> e) sharers
                              && not (List.exists (fun (_, (ca, _)) -> ca) sharers))) in
-                 (if u then incr ncollapse); u in
-             let o_main = { base_or with uq = uq_impl } in
+             (* the answers the model USES are derived from its own heap and live handles by counting owners (the
+                extracted uniq_rc); they are compared with the answers inferred from the implementation *)
              let prev = !st in
+             let uq_total = ref 0 and uq_agree = ref 0 in
+             let uq_rc h idn =
+               let d = uniq_rc a_ops prev.st_handles h idn in
+               (* counted only where the implementation's answer is observable: the node is alive afterwards *)
+               (match Hashtbl.find_opt regtab (int_of_nat idn) with
+                | Some k when List.mem_assoc k post
+                              && (match get_node a_ops h idn with
+                                  | Some (NOp (_, _, c, _)) ->
+                                    (match List.nth_opt h.cells (int_of_nat c) with Some ch -> List.length ch <> 1 | None -> false)
+                                  | _ -> false) ->   (* with an already reduced children vector the answer is not used *)
+                  incr uq_total; (if d = uq_inferred idn then incr uq_agree)
+                | _ -> ());
+               (if d then incr ncollapse); d in
+             let o_main = { base_or with uq = uq_rc } in
              (match run_hop o_main true prev hop with
               | None -> Printf.printf "X %s %d model-undefined\n" id j; ok := false
               | Some s' ->
@@ -250,10 +259,11 @@ let process line =
                    (match leaf_vox s' a with
                     | None -> Printf.printf "X %s %d model-not-leaf\n" id j; ok := false
                     | Some vs ->
-                      let cv = canon vs in
-                      let ncol = !ncollapse in
+                      let (stc, vv) = vs in
+                      let cv = canon vv in
+                      let ncol = !ncollapse and uqt = !uq_total and uqa = !uq_agree in
                       let (hex, out) = hexbitmap grid cv in
-                      Printf.printf "R %s %d %d %d %s\n" id j (List.length cv) out hex;
+                      Printf.printf "R %s %d %d %d %d %s\n" id j stc (List.length cv) out hex;
                       Printf.printf "S %s %d %s\n" id j (dump s' reg !nreg);
                       (* other oracle answers and the big-step evaluator: same solid? *)
                       let alts = [
@@ -261,18 +271,18 @@ let process line =
                         (true, { base_or with uq = (fun _ _ -> true) });
                         (false, { base_or with uq = (fun _ _ -> true); km = nat_of_int 2 });
                         (true, { base_or with uq = (fun _ _ -> false); ov = (fun _ _ -> true) });
-                        (false, { base_or with uq = (fun t _ -> int_of_nat t mod 2 = 0);
-                                               sz = (fun l -> z_of_int (- (List.length (fst l)))); km = nat_of_int 3 });
-                        (true, { base_or with uq = (fun t n -> (int_of_nat t + int_of_nat n) mod 3 = 0);
+                        (false, { base_or with uq = (fun h _ -> int_of_nat h.tick mod 2 = 0);
+                                               sz = (fun l -> z_of_int (- (List.length (vox_of (fst l))))); km = nat_of_int 3 });
+                        (true, { base_or with uq = (fun h n -> (int_of_nat h.tick + int_of_nat n) mod 3 = 0);
                                               sz = (fun _ -> Z0) }) ] in
                       let nok = ref 0 in
                       List.iter (fun (stk, o) ->
                           match run_hop o stk prev hop with
                           | Some s2 -> (match leaf_vox s2 a with
-                              | Some v2 when canon v2 = cv -> incr nok
+                              | Some (st2, v2) when canon v2 = cv && (st2 <> 0) = (stc <> 0) -> incr nok
                               | _ -> ())
                           | None -> ()) alts;
-                      Printf.printf "ALT %s %d %d %d %d\n" id j !nok (List.length alts) ncol)))
+                      Printf.printf "ALT %s %d %d %d %d %d %d\n" id j !nok (List.length alts) ncol uqa uqt)))
            end) ops;
        Printf.printf "END %s\n" id
      | _ -> ())
